@@ -72,6 +72,10 @@ theorem decScalar_payload (t : Ty) (v : Val) (hs : isScalar t = true) (h : wfVal
   case u16.nat n => simp; omega
   case u32.nat n => simp; omega
   case u64.nat n => simp; omega
+  case i8.int i =>
+    have := ofU_toU 8 (by omega) i h
+    simp only [UInt8.toNat_ofNat', Nat.reducePow] at this ⊢
+    rw [this]
   case i16.int i => rw [ofU_toU 16 (by omega) i h]
   case i32.int i => rw [ofU_toU 32 (by omega) i h]
   case i64.int i => rw [ofU_toU 64 (by omega) i h]
@@ -144,6 +148,7 @@ theorem encField_ref (tag : UInt8) : ∀ (t : Ty) (v : Val), serialize (encField
     simp only [Function.comp]
     rw [serialize_frag, encFields_ref fs]
   | .u8, v => by cases v <;> simp [encField, refField, serialize, scalarPayload, frag_nil, frag_short]
+  | .i8, v => by cases v <;> simp [encField, refField, serialize, scalarPayload, frag_nil, frag_short]
   | .bool, v => by cases v <;> simp [encField, refField, serialize, scalarPayload, frag_nil, frag_short]
   | .u16, v => by
     cases v <;> simp [encField, refField, serialize, scalarPayload, frag_nil]
@@ -398,6 +403,7 @@ theorem decScalar_good (t : Ty) (b : Bytes) (hs : isScalar t = true) (h : b ≠ 
   case u16 => obtain ⟨n, hn⟩ := decU16_ok b h; rw [hn]; exact good_ok _
   case u32 => obtain ⟨n, hn⟩ := decU32_ok b h; rw [hn]; exact good_ok _
   case u64 => obtain ⟨n, hn⟩ := decU64_ok b h; rw [hn]; exact good_ok _
+  case i8 => obtain ⟨n, hn⟩ := byte0_ok b h; rw [hn]; exact good_ok _
   case i16 => obtain ⟨n, hn⟩ := decI16_ok b h; rw [hn]; exact good_ok _
   case i32 => obtain ⟨n, hn⟩ := decI32_ok b h; rw [hn]; exact good_ok _
   case i64 => obtain ⟨n, hn⟩ := decI64_ok b h; rw [hn]; exact good_ok _
@@ -526,6 +532,7 @@ theorem decField_good (tag : UInt8) : ∀ (t : Ty) (rd : Rd), NoEmpty rd.m →
   | .u16, rd, h => decField_scalar_good tag _ rd rfl h
   | .u32, rd, h => decField_scalar_good tag _ rd rfl h
   | .u64, rd, h => decField_scalar_good tag _ rd rfl h
+  | .i8, rd, h => decField_scalar_good tag _ rd rfl h
   | .i16, rd, h => decField_scalar_good tag _ rd rfl h
   | .i32, rd, h => decField_scalar_good tag _ rd rfl h
   | .i64, rd, h => decField_scalar_good tag _ rd rfl h
